@@ -7,6 +7,7 @@ import (
 	"go/token"
 	"go/types"
 	"math/big"
+	"sort"
 	"strings"
 
 	"golang.org/x/tools/go/ssa"
@@ -412,9 +413,15 @@ func (fr *Frame) execInstr(in ssa.Instruction) bool {
 		}
 		e.assume(mkImp(fr.pc, mkAnd(app("bvsle", bvLitI(64, lo), v.F[0].S), app("bvslt", v.F[0].S, bvLitI(64, n)))))
 		e.flag("select")
+		for k, stt := range x.States {
+			if stt.Dir == types.SendOnly {
+				fr.chanSend(x, stt.Chan, stt.Send, mkAnd(fr.pc, mkEq(v.F[0].S, bvLitI(64, int64(k)))))
+			}
+		}
 		fr.set(x, v)
 	case *ssa.Send:
 		e.flag("chan-send")
+		fr.chanSend(x, x.Chan, x.X, fr.pc)
 	case *ssa.Go:
 		e.flag("go")
 		fr.checkGo(x)
@@ -629,11 +636,24 @@ func (e *Exec) substr(s, lo, hi, pc string) string {
 		return s
 	}
 	t := app("ssub", s, lo, hi)
+	if e.ssubCache == nil {
+		e.ssubCache = map[string]string{}
+	}
+	// the length fact holds for bounds that are in range only (a contract may mention s[a:b] in a
+	// state where the bounds are not: that must not make the context inconsistent)
+	inRange := mkAnd(app("bvsle", bvLitI(64, 0), lo), app("bvsle", lo, hi), app("bvsle", hi, app("slen", s)))
+	if n, ok := e.ssubCache[t]; ok {
+		return n
+	}
 	n := e.fresh("sub", sStr)
+	e.ssubCache[t] = n
 	e.assume(mkEq(n, t))
-	e.assume(mkImp(pc, mkEq(app("slen", n), bvSub(hi, lo))))
-	e.strInv(n, pc)
-	b := ssubEntry{s: s, lo: lo, hi: hi, name: n}
+	e.assume(mkImp(inRange, mkEq(app("slen", n), bvSub(hi, lo))))
+	e.strInv(n, "true")
+	e.ssubChars(n, s, lo, hi, inRange)
+	b := ssubEntry{s: s, lo: lo, hi: hi, name: n, guard: "true"}
+	// a substring of a substring is a substring of the original (stated for the instance at hand)
+	e.ssubChain(b, 0)
 	e.ssubReg = append(e.ssubReg, b)
 	if len(e.ssubReg) <= 24 {
 		for _, f := range e.sfromReg {
@@ -818,6 +838,19 @@ func (e *Exec) concat(a, b, pc string) string {
 	e.assume(mkEq(app("slen", n), bvAdd(app("slen", a), app("slen", b))))
 	e.assume(mkAnd(mkImp(mkEq(a, "str.empty"), mkEq(n, b)), mkImp(mkEq(b, "str.empty"), mkEq(n, a))))
 	e.strInv(n, pc)
+	if e.spec != nil && e.spec.Options["catlemmas"] && !e.inCatLemma {
+		// the two halves of a concatenation are substrings of it (stated for this instance; together
+		// with the substring-of-substring instances this relates positions in nested concatenations)
+		e.inCatLemma = true
+		la := app("slen", a)
+		p := e.substr(n, bvLitI(64, 0), la, pc)
+		e.assume(mkEq(p, a))
+		e.noteAlias(a, p)
+		q := e.substr(n, la, app("slen", n), pc)
+		e.assume(mkEq(q, b))
+		e.noteAlias(b, q)
+		e.inCatLemma = false
+	}
 	return n
 }
 
@@ -879,10 +912,51 @@ func (fr *Frame) execConvert(x *ssa.Convert) {
 type sfromEntry struct{ base, off, ln, name, arr string }
 
 // ssubEntry records a substring term. For every pair (string taken from bytes, substring) the lemma
-//   s == sfrom(a,o,l) && 0 <= lo <= hi <= l  ==>  ssub(s,lo,hi) == sfrom(a, o+lo, hi-lo)
+//
+//	s == sfrom(a,o,l) && 0 <= lo <= hi <= l  ==>  ssub(s,lo,hi) == sfrom(a, o+lo, hi-lo)
+//
 // is stated at generation time (strings are determined by their length and characters); a quantified
 // axiom with the same content made unrelated proofs unstable.
-type ssubEntry struct{ s, lo, hi, name string }
+type ssubEntry struct{ s, lo, hi, name, guard string }
+
+// ssubChain: a substring of a substring is a substring of the original. For the new entry b (name ==
+// ssub(b.s, b.lo, b.hi) under b.guard) and every registered entry o whose name may be b.s, the instance
+//
+//	b.s == o.name && bounds ==> b.name == ssub(o.s, o.lo+b.lo, o.lo+b.hi)
+//
+// is stated, and the derived fact is chained further (depth-limited), so that a sequence of reads that
+// each consume a prefix is related to offsets in the original input.
+func (e *Exec) ssubChain(b ssubEntry, depth int) {
+	if depth > 3 || len(e.ssubReg) > 64 {
+		return
+	}
+	zero := bvLitI(64, 0)
+	for _, o := range e.ssubReg {
+		if o.name == b.name {
+			continue
+		}
+		g := mkAnd(b.guard, o.guard, mkEq(b.s, o.name), app("bvsle", zero, b.lo), app("bvsle", b.lo, b.hi), app("bvsle", b.hi, bvSub(o.hi, o.lo)), app("bvsle", zero, o.lo), app("bvsle", o.lo, o.hi))
+		if b.s != o.name && !e.aliasHint[b.s][o.name] {
+			continue // only names that are syntactically the same or were equated by an assumption
+		}
+		d := ssubEntry{s: o.s, lo: bvAdd(o.lo, b.lo), hi: bvAdd(o.lo, b.hi), name: b.name, guard: g}
+		e.assume(mkImp(g, mkEq(b.name, app("ssub", d.s, d.lo, d.hi))))
+		e.ssubChars(b.name, d.s, d.lo, d.hi, g)
+		e.ssubChain(d, depth+1)
+	}
+}
+
+// ssubChars: the characters of a short substring (literal length up to 8), stated outright.
+func (e *Exec) ssubChars(name, s, lo, hi, guard string) {
+	d := bvSub(hi, lo)
+	lv, _, ok := litVal(d)
+	if !ok || !lv.IsInt64() || lv.Int64() > 8 {
+		return
+	}
+	for k := int64(0); k < lv.Int64(); k++ {
+		e.assume(mkImp(guard, mkEq(app("sat", name, bvLitI(64, k)), app("sat", s, bvAdd(lo, bvLitI(64, k))))))
+	}
+}
 
 func (e *Exec) ssubLemma(f sfromEntry, b ssubEntry) {
 	zero := bvLitI(64, 0)
@@ -910,8 +984,24 @@ func (e *Exec) strOfBytes(st *State, v Val, pc string) string {
 	e.needSfrom()
 	srt := arrSort(sRef, arrSort(sBV64, bvSort(8)))
 	arr := e.heapGet(st, elemKey(tByte, 0), srt)
+	sft := app("sfrom", sel(arr, v.sBase()), v.sOff(), v.sLen())
+	if e.ssubCache == nil {
+		e.ssubCache = map[string]string{}
+	}
+	if n, ok := e.ssubCache[sft]; ok {
+		e.assume(mkImp(mkAnd(pc, app("bvsle", bvLitI(64, 0), v.sLen())), mkEq(app("slen", n), v.sLen())))
+		return n
+	}
 	n := e.fresh("str_of", sStr)
-	e.assume(mkEq(n, app("sfrom", sel(arr, v.sBase()), v.sOff(), v.sLen())))
+	e.ssubCache[sft] = n
+	e.assume(mkEq(n, sft))
+	if lv, _, ok := litVal(v.sLen()); ok && lv.IsInt64() && lv.Int64() <= 8 {
+		// short strings: their characters, stated outright (the quantified character axiom needs a
+		// trigger term that is often absent)
+		for k := int64(0); k < lv.Int64(); k++ {
+			e.assume(mkEq(app("sat", n, bvLitI(64, k)), sel(sel(arr, v.sBase()), bvAdd(v.sOff(), bvLitI(64, k)))))
+		}
+	}
 	ent := sfromEntry{base: v.sBase(), off: v.sOff(), ln: v.sLen(), name: n, arr: sel(arr, v.sBase())}
 	e.sfromReg = append(e.sfromReg, ent)
 	if len(e.sfromReg) <= 24 {
@@ -919,7 +1009,7 @@ func (e *Exec) strOfBytes(st *State, v Val, pc string) string {
 			e.ssubLemma(ent, b)
 		}
 	}
-	e.assume(mkImp(pc, mkEq(app("slen", n), v.sLen())))
+	e.assume(mkImp(mkAnd(pc, app("bvsle", bvLitI(64, 0), v.sLen())), mkEq(app("slen", n), v.sLen())))
 	e.strInv(n, pc)
 	return n
 }
@@ -1179,4 +1269,72 @@ func (e *Exec) zeroGhosts(fr *Frame, ref string, T types.Type) {
 
 func rangeKey(r *ssa.Range) string {
 	return fmt.Sprintf("R:%s:%s", r.Parent().Name(), r.Name())
+}
+
+// chanSend: a channel send under condition pc. The ghost counter chansends counts the sends of the
+// function's execution; the contract's onsend clauses are obligations over the channel (ch) and the
+// value sent (val: the value before it was boxed into an interface, when the send site boxes it).
+func (fr *Frame) chanSend(in ssa.Instruction, ch, x ssa.Value, pc string) {
+	e := fr.e
+	if _, ok := e.L.specs.GhostVars["chansends"]; ok {
+		srt := sBV64
+		e.keySort["X:chansends"] = srt
+		cur := e.heapGet(fr.st, "X:chansends", srt)
+		e.heapSet(fr.st, "X:chansends", srt, mkIte(pc, bvAdd(cur, bvLitI(64, 1)), cur))
+	}
+	if fr.depth != 0 || e.spec == nil || (len(e.spec.OnSend) == 0 && len(e.spec.OnSendAdd) == 0) {
+		return
+	}
+	val := fr.val(x)
+	val.T = x.Type()
+	if mi, ok := x.(*ssa.MakeInterface); ok {
+		val = fr.val(mi.X)
+		val.T = mi.X.Type()
+	}
+	chv := fr.val(ch)
+	chv.T = ch.Type()
+	env := e.baseEnv(fr, fr.st)
+	env.old = e.entry
+	for k, v := range e.params {
+		if _, clash := env.vars[k]; !clash {
+			env.vars[k] = v
+		}
+	}
+	env.vars["ch"] = chv
+	env.vars["val"] = val
+	save := e.pcNow
+	e.pcNow = pc
+	for i, c := range e.spec.OnSend {
+		t, err := env.evalBool(c.E)
+		if err != nil {
+			e.errs = append(e.errs, fmt.Sprintf("%s: %v", c.Line, err))
+			continue
+		}
+		lbl := c.Label
+		if lbl == "" {
+			lbl = fmt.Sprint(i + 1)
+		}
+		e.oblige("onsend", fr.prefix+lbl, pc, t, e.posOf(in.Pos()), "condition on every channel send: "+c.Src)
+	}
+	var gnames []string
+	for g := range e.spec.OnSendAdd {
+		gnames = append(gnames, g)
+	}
+	sort.Strings(gnames)
+	for _, g := range gnames {
+		c := e.spec.OnSendAdd[g]
+		v, err := env.eval(c.E)
+		if err != nil {
+			e.errs = append(e.errs, fmt.Sprintf("%s: %v", c.Line, err))
+			continue
+		}
+		if _, err := env.evalIdent(g); err != nil { // registers the ghost variable's sort
+			e.errs = append(e.errs, fmt.Sprintf("%s: %v", c.Line, err))
+			continue
+		}
+		srt := e.keySort["X:"+g]
+		cur := e.heapGet(fr.st, "X:"+g, srt)
+		e.heapSet(fr.st, "X:"+g, srt, mkIte(pc, bvAdd(cur, e.toBV64(v)), cur))
+	}
+	e.pcNow = save
 }
